@@ -65,6 +65,8 @@ ASSUMPTIONS = [
     'site-table keys (shank, row, col) are integer valued (asserted on every generated table); the geometry conversion itself (col flip, x/y) belongs to C08: the unsorted geometry of the real code is the input of the order model',
     'read_samples: only its data part is compared (Reader.read_sync is stubbed during the call; sync decoding is C10)',
     'ties of (shank, row, col): the model breaks them by on-disk index (np.lexsort is stable) and proves that; the comparison of raw_channel_order with the model and the oracle accept any order among electrodes with identical (shank, row, col), as the property does; the reads are then modelled with the order the reader reports',
+    'input forms: the representation of a call is drawn independently of its value (NumPy integer scalars of 8 dtypes, slice bounds as NumPy ints, index sequences as list / int64 array / arrays of 8 integer dtypes / list of NumPy ints / boolean mask array or list / range / tuple (samples, .bin), read and read_samples by keyword or positionally in the current signature order, spikeglx.read as alternative entry of read_samples, Reader built from str or Path, by keyword, fully positionally, with dtype=np.int16, or open=False then open()); the model and the oracle work on the VALUE (a mask is its index list); a form that cannot hold the value falls back to the plain one',
+    'unsupported forms, never produced: a TUPLE as channel selector (known finding tuple_channel_selector), tuples / ranges of samples on a .cbin (mtscomp), float / Ellipsis / None selectors',
     'purity: whether a call modified its selector objects or a reader attribute is only recorded (info: tags, none on the current tree); a disagreement is reported only through results (a later call of the sequence returning something else than the model of the original values); results are never overwritten by the harness',
     'metadata describing more sites than saved channels (Reader.__init__ raises ValueError) is outside the property; generated rarely to compare the error branch',
 ]
@@ -250,7 +252,8 @@ def gen_spec(rng, k, quick=True):
     spec['over'] = over
     spec['ops'] = gen_ops(rng, ns, nc, spec['backend'], big)
     # call sequence of every operation (see run_sequence) and whether lists are handed over as ndarrays
-    spec['modes'] = [[MODES[int(rng.choice(3, p=[.55, .3, .15]))], bool(rng.random() < 0.5)] for _ in spec['ops']]
+    spec['modes'] = [[MODES[int(rng.choice(3, p=[.55, .3, .15]))], gen_form(rng)] for _ in spec['ops']]
+    spec['ctor'] = str(rng.choice(CTOR_FORMS))
     spec['reopen'] = bool(rng.random() < 0.3) or forced      # the unchanged fixtures are always opened a second time
     return spec
 
@@ -358,6 +361,29 @@ def _data(spec):
     return D
 
 
+def open_reader(file, sort, ctor='path-kw'):
+    """spikeglx.Reader(file, sort=sort) in one of its spellings (CTOR_FORMS); 'positional' follows the current signature
+    (sglx_file, open, nc, ns, fs, dtype, s2v, nsync, ignore_warnings, meta_file, ch_file, sort)"""
+    import spikeglx
+    if ctor == 'str-kw':
+        return spikeglx.Reader(str(file), sort=sort)
+    if ctor == 'positional':
+        return spikeglx.Reader(str(file), True, None, None, None, 'int16', None, None, False, None, None, sort)
+    if ctor == 'dtype-np':
+        return spikeglx.Reader(Path(file), dtype=np.int16, sort=sort)
+    if ctor == 'open-later':
+        sr = spikeglx.Reader(Path(file), open=False, sort=sort)
+        sr.open()
+        return sr
+    return spikeglx.Reader(Path(file), sort=sort)
+
+
+CTOR_TEXT = {'path-kw': 'spikeglx.Reader(Path(file), sort=sort)', 'str-kw': 'spikeglx.Reader(str(file), sort=sort)',
+             'positional': "spikeglx.Reader(str(file), True, None, None, None, 'int16', None, None, False, None, None, sort)",
+             'dtype-np': 'spikeglx.Reader(Path(file), dtype=np.int16, sort=sort)',
+             'open-later': 'sr = spikeglx.Reader(Path(file), open=False, sort=sort); sr.open()'}
+
+
 class Recording:
     """A synthetic recording on disk (removed by close())."""
 
@@ -400,7 +426,7 @@ class Recording:
             self.file = cbin
         self.sr, self.open_error = None, None
         try:
-            self.sr = spikeglx.Reader(self.file, sort=spec['sort'])
+            self.sr = open_reader(self.file, spec['sort'], spec.get('ctor', 'path-kw'))
         except Exception as e:
             if not spec.get('inconsistent'):
                 shutil.rmtree(self.tmp, ignore_errors=True)
@@ -423,16 +449,70 @@ class Recording:
 # ---------------------------------------------------------------------------------------------
 # running one operation on the real reader
 # ---------------------------------------------------------------------------------------------
-def py_sel(tok, array_lists=False):
+CTOR_FORMS = ('path-kw', 'str-kw', 'positional', 'dtype-np', 'open-later')
+INT_DTYPES = ('int64', 'int32', 'int16', 'int8', 'uint64', 'uint32', 'uint16', 'uint8')
+
+
+def _fits(v, dt):
+    i = np.iinfo(dt)
+    return i.min <= v <= i.max
+
+
+def gen_form(rng):
+    """the REPRESENTATION of a call, drawn independently of its value: integer dtypes, containers, masks, spelling"""
+    return {'arr': bool(rng.random() < 0.5),
+            'npint': str(rng.choice(INT_DTYPES)),
+            'bounds': None if rng.random() < 0.5 else str(rng.choice(INT_DTYPES)),
+            'seq': None if rng.random() < 0.45 else str(rng.choice(['tuple', 'mask', 'masklist', 'npints', 'range'] + ['nd:' + d for d in INT_DTYPES])),
+            'call': str(rng.choice(['kw', 'pos', 'alt']))}
+
+
+def py_sel(tok, form=False, axis='n', n=None, backend='bin'):
+    """The Python object handed to the reader for a selector token.  `form` is a bool (lists as int64 arrays or not) or a
+    form dict (gen_form); a form that cannot represent the value (negative in an unsigned dtype, mask of an unsorted
+    list, ...) falls back to the plain one.  Forms the API does not support are never produced: a tuple as channel
+    selector (known finding tuple_channel_selector), a tuple of samples on a .cbin, a lone tuple (that is `itemi`)."""
+    f = form if isinstance(form, dict) else {'arr': bool(form)}
     kind, _, rest = tok.partition(':')
     if kind == 'i':
         return int(rest)
     if kind == 'n':
-        return np.int64(int(rest))
+        v, dt = int(rest), f.get('npint') or 'int64'
+        return getattr(np, dt if _fits(v, dt) else 'int64')(v)
     if kind == 's':
-        return slice(*[None if v == '_' else int(v) for v in rest.split(':')])
+        dt = f.get('bounds')
+        return slice(*[None if v == '_' else (getattr(np, dt)(int(v)) if dt and _fits(int(v), dt) else int(v)) for v in rest.split(':')])
     l = [] if rest == '-' else [int(v) for v in rest.split(',')]
-    return np.array(l, dtype=np.int64) if array_lists else l
+    seq = f.get('seq')
+    if seq == 'tuple' and axis == 'n' and backend == 'bin':
+        return tuple(l)
+    if seq in ('mask', 'masklist') and n is not None and all(0 <= v < n for v in l) and all(a < b for a, b in zip(l, l[1:])):
+        m = np.zeros(n, dtype=bool)
+        m[l] = True
+        return m if seq == 'mask' else m.tolist()
+    if seq == 'range' and len(l) >= 2 and all(v >= 0 for v in l) and l[1] != l[0] and all(b - a == l[1] - l[0] for a, b in zip(l, l[1:])) \
+            and (axis == 'c' or backend == 'bin'):
+        return range(l[0], l[-1] + (1 if l[1] > l[0] else -1), l[1] - l[0])
+    if seq == 'npints':
+        return [np.int64(v) if i % 2 else np.int32(v) for i, v in enumerate(l)]
+    if seq and seq.startswith('nd:') and all(_fits(v, seq[3:]) for v in l):
+        return np.array(l, dtype=seq[3:])
+    return np.array(l, dtype=np.int64) if f.get('arr') else l
+
+
+def render(x):
+    """Python source text of a selector object (for replays)"""
+    if isinstance(x, np.ndarray):
+        return 'np.array(%r, dtype=np.%s)' % (x.tolist(), x.dtype)
+    if isinstance(x, np.generic):
+        return 'np.%s(%r)' % (type(x).__name__, x.item())
+    if isinstance(x, slice):
+        return 'slice(%s, %s, %s)' % tuple(render(v) for v in (x.start, x.stop, x.step))
+    if isinstance(x, list):
+        return '[' + ', '.join(render(v) for v in x) + ']'
+    if isinstance(x, tuple):
+        return '(' + ', '.join(render(v) for v in x) + (',)' if len(x) == 1 else ')')
+    return repr(x)
 
 
 def canon(r):
@@ -468,6 +548,7 @@ def canon_int(r):
 
 
 def numpy_select(D, op, array_lists=False):
+    array_lists = bool(array_lists.get('arr')) if isinstance(array_lists, dict) else array_lists
     """NumPy's own answer for D[nsel, :][..., csel] (the channel selector is looked at first, like the specification)"""
     A = D.astype(np.int64)
     try:
@@ -477,19 +558,36 @@ def numpy_select(D, op, array_lists=False):
         return 'err ' + type(e).__name__
 
 
-def build_args(op, array_lists=False):
+def build_args(op, form=False, dims=(None, None), backend='bin'):
     """the Python selector objects of one operation, built ONCE (the same objects are handed to repeated calls)"""
+    ns, nc = dims
+    kn = dict(axis='n', n=ns, backend=backend)
+    kc = dict(axis='c', n=nc, backend=backend)
     if op[0] == 'read':
-        return [py_sel(op[2], array_lists), py_sel(op[3], array_lists)]
+        return [py_sel(op[2], form, **kn), py_sel(op[3], form, **kc)]
     if op[0] == 'item1':
-        return [py_sel(op[1], array_lists)]
+        a = py_sel(op[1], form, **kn)
+        return [list(a) if isinstance(a, tuple) else a]       # a lone tuple would be `itemi`
     if op[0] == 'itemt':
-        return [py_sel(op[1], array_lists), py_sel(op[2], array_lists)]
+        return [py_sel(op[1], form, **kn), py_sel(op[2], form, **kc)]
     if op[0] == 'itemi':
         return [tuple([] if op[1] == '-' else [int(v) for v in op[1].split(',')])]
     if op[0] == 'rs':
-        return [int(op[1]), int(op[2]), None if op[3] == 'none' else py_sel(op[3], array_lists)]
+        return [int(op[1]), int(op[2]), None if op[3] == 'none' else py_sel(op[3], form, **kc)]
     raise RuntimeError(op)
+
+
+def call_spelling(spec, op, form):
+    """which spelling of the call is used: keywords, positional in the order of the current signature, or an alternative
+    entry point (module-level spikeglx.read for read_samples of all channels on a sorted imec recording)"""
+    c = form.get('call', 'kw') if isinstance(form, dict) else 'kw'
+    if op[0] == 'read' and op[1] == 'read':
+        return 'pos' if c == 'pos' else 'kw'
+    if op[0] == 'rs':
+        if c == 'alt' and op[3] == 'none' and spec['sort'] and spec['family'] != 'nidq':
+            return 'alt'
+        return 'kw' if c == 'kw' else 'pos'
+    return 'kw'
 
 
 def _freeze(a):
@@ -500,14 +598,21 @@ def _freeze(a):
         return ('slice', a.start, a.stop, a.step)
     if isinstance(a, (list, tuple)):
         return (type(a).__name__, tuple(_freeze(x) for x in a))
+    if isinstance(a, np.generic):
+        return (type(a).__name__, a.item())
     return (type(a).__name__, repr(a))
 
 
-def call_op(sr, op, args):
+def call_op(sr, op, args, spelling='kw', file=None):
     """one call of the real reader; returns (canonical answer, returned object or None)"""
     try:
         if op[0] == 'read':
-            r = sr[args[0], args[1]] if op[1] == 'getitem' else sr.read(nsel=args[0], csel=args[1], sync=False)
+            if op[1] == 'getitem':
+                r = sr[args[0], args[1]]
+            elif spelling == 'pos':
+                r = sr.read(args[0], args[1], False)
+            else:
+                r = sr.read(nsel=args[0], csel=args[1], sync=False)
         elif op[0] == 'item1':
             r = sr[args[0]]
         elif op[0] == 'itemt':
@@ -515,13 +620,20 @@ def call_op(sr, op, args):
         elif op[0] == 'itemi':
             r = sr[args[0]]
         elif op[0] == 'rs':
-            # data part of read_samples only: the sync part (read_sync, C10) is stubbed; on synthetic nidq layouts
-            # without digital sync words (snsMnMaXaDw = a,b,c,0) read_sync raises ValueError, which is not C01's subject
-            sr.read_sync = lambda *a, **k: None
-            try:
-                r = sr.read_samples(args[0], args[1], args[2])
-            finally:
-                del sr.read_sync
+            if spelling == 'alt':
+                import spikeglx
+                r = spikeglx.read(str(file), args[0], args[1])
+            else:
+                # data part of read_samples only: the sync part (read_sync, C10) is stubbed; on synthetic nidq layouts
+                # without digital sync words (snsMnMaXaDw = a,b,c,0) read_sync raises ValueError, which is not C01's subject
+                sr.read_sync = lambda *a, **k: None
+                try:
+                    if spelling == 'kw':
+                        r = sr.read_samples(first_sample=args[0], last_sample=args[1], channels=args[2])
+                    else:
+                        r = sr.read_samples(args[0], args[1], args[2])
+                finally:
+                    del sr.read_sync
             r = r[0]
         else:
             raise RuntimeError(op)
@@ -578,18 +690,33 @@ def run_sequence(R, op, array_lists=False, mode='plain'):
     results, every call of the sequence must return the model's answer for the ORIGINAL argument values.
     Returns (answers, flags, sequence)."""
     sr = R.sr
-    args = build_args(op, array_lists)
+    args = build_args(op, array_lists, R.D.shape, R.spec['backend'])
+    spelling = call_spelling(R.spec, op, array_lists)
     keep = [_freeze(a) for a in args]
     answers, flags, seq = [], [], []
+    for x in args:        # the applied representation, for the input distribution
+        if isinstance(x, np.ndarray):
+            flags.append('form:ndarray[%s]' % x.dtype)
+        elif isinstance(x, np.generic):
+            flags.append('form:np.%s scalar' % type(x).__name__)
+        elif isinstance(x, slice):
+            b = [v for v in (x.start, x.stop, x.step) if isinstance(v, np.generic)]
+            flags.append('form:slice[%s bounds]' % (type(b[0]).__name__ if b else 'int'))
+        elif isinstance(x, list):
+            flags.append('form:list of bool' if x and isinstance(x[0], bool) else 'form:list of NumPy ints' if x and isinstance(x[0], np.generic) else 'form:list')
+        elif isinstance(x, (tuple, range)):
+            flags.append('form:' + type(x).__name__)
+    if op[0] in ('rs',) or (op[0] == 'read' and op[1] == 'read'):
+        flags.append('form:call=' + spelling)
 
     def once():
-        a, _ = call_op(sr, op, args)
+        a, _ = call_op(sr, op, args, spelling, R.file)
         answers.append(a)
-        seq.append('r%d = %s' % (len(answers), op_call_text(op, array_lists)))
+        seq.append('r%d = %s' % (len(answers), op_call_text(op, args, spelling)))
         if any(_freeze(x) != y for x, y in zip(args, keep)):
             flags.append('argument-object-modified')
             seq.append('(the selector object now holds %s)' % ', '.join(
-                repr(x.tolist() if isinstance(x, np.ndarray) else x) for x in args))
+                render(x) for x in args))
             keep[:] = [_freeze(x) for x in args]
 
     once()
@@ -606,19 +733,19 @@ def run_sequence(R, op, array_lists=False, mode='plain'):
     return answers, flags, seq
 
 
-def op_call_text(op, array_lists=False):
-    def t(tok):
-        v = py_sel(tok, array_lists)
-        return 'np.array(%r)' % v.tolist() if isinstance(v, np.ndarray) else repr(v)
+def op_call_text(op, args, spelling='kw'):
+    a = [render(x) for x in args]
     if op[0] == 'read':
-        return ('sr[%s, %s]' if op[1] == 'getitem' else 'sr.read(nsel=%s, csel=%s, sync=False)') % (t(op[2]), t(op[3]))
-    if op[0] == 'item1':
-        return 'sr[%s]' % t(op[1])
+        if op[1] == 'getitem':
+            return 'sr[%s, %s]' % (a[0], a[1])
+        return ('sr.read(%s, %s, False)' if spelling == 'pos' else 'sr.read(nsel=%s, csel=%s, sync=False)') % (a[0], a[1])
+    if op[0] in ('item1', 'itemi'):
+        return 'sr[%s]' % a[0]
     if op[0] == 'itemt':
-        return 'sr[%s, %s]' % (t(op[1]), t(op[2]))
-    if op[0] == 'itemi':
-        return 'sr[%r]' % (build_args(op)[0],)
-    return 'sr.read_samples(%s, %s, %s)[0]' % (op[1], op[2], 'None' if op[3] == 'none' else t(op[3]))
+        return 'sr[%s, %s]' % (a[0], a[1])
+    if spelling == 'alt':
+        return 'spikeglx.read(str(file), %s, %s)[0]' % (a[0], a[1])
+    return ('sr.read_samples(first_sample=%s, last_sample=%s, channels=%s)[0]' if spelling == 'kw' else 'sr.read_samples(%s, %s, %s)[0]') % tuple(a)
 
 
 def run_op(R, op, array_lists=False, mode='plain'):
@@ -738,6 +865,7 @@ def _tags(spec, op, impl_ans, order_ident, uniform):
          'op=' + op[0]]
     if len(op) >= 2 and op[-2] in MODES:
         t.append('seq=' + op[-2])
+        t.append('ctor=' + spec.get('ctor', 'path-kw'))
     w = impl_ans.split()
     if impl_ans.startswith('err'):
         t.append('out=' + ' '.join(w[:2]))
@@ -878,7 +1006,7 @@ def correspondence(ctx):
                 ctx.compare('geometry', dict(desc, op=['geometry']), gsorted, mg, nontrivial=not ident,
                             tags=('geometry', 'geom=' + ('none' if g0 is None else 'present')))
                 continue
-            extra = tuple('info:' + f for f in gsorted) if kind == 'op' and isinstance(gsorted, tuple) else ()
+            extra = tuple(f if f.startswith('form:') else 'info:' + f for f in gsorted) if kind == 'op' and isinstance(gsorted, tuple) else ()
             ctx.compare(kind if kind != 'op' else op[0], desc, a, m, nontrivial=nt, tags=_tags(spec, op, a, ident, uniform) + extra)
 
 
@@ -978,18 +1106,18 @@ def oracle_recording(R, ops=None):
         why = excluded(spec, op)
         if why:
             continue
-        for arr, md in ((arr0, mode), (not arr0, 'plain')):
+        for arr, md in ((arr0, mode), (not (arr0.get('arr') if isinstance(arr0, dict) else arr0), 'plain')):
             answers, _flags, seq = run_sequence(R, op, array_lists=arr, mode=md)
             case = [op, md, arr]
-            try:
+            try:       # the expectation is stated on the VALUES of the selectors (plain Python ints / lists / slices)
                 if op[0] == 'read':
-                    exp = A[py_sel(op[2], arr), :][..., py_sel(op[3], arr)]
+                    exp = A[py_sel(op[2]), :][..., py_sel(op[3])]
                 elif op[0] == 'item1':
-                    exp = A[py_sel(op[1], arr)]
+                    exp = A[py_sel(op[1])]
                 elif op[0] == 'itemt':
-                    exp = A[py_sel(op[1], arr), :][..., py_sel(op[2], arr)]
+                    exp = A[py_sel(op[1]), :][..., py_sel(op[2])]
                 else:
-                    exp = A[int(op[1]):int(op[2]), :][..., slice(None) if op[3] == 'none' else py_sel(op[3], arr)]
+                    exp = A[int(op[1]):int(op[2]), :][..., slice(None) if op[3] == 'none' else py_sel(op[3])]
                 exp = canon(np.asarray(exp))
             except (IndexError, ValueError) as e:
                 exp = 'err'
@@ -1034,11 +1162,14 @@ def _replay_input(spec, D, case):
         calls = {'plain': 'one call', 'repeat': 'three identical calls on the same Reader with the same argument objects',
                  'interleave': 'call, then the library calls listed in harness/props/c01.py interleave() (geometry_from_meta, '
                                '_conversion_sample2v_from_meta, _get_nshanks_from_meta, trace_header, range_volts, read_sync, other reads), '
-                               'then the same call again'}[mode] + ': ' + op_call_text(op, arr)
+                               'then the same call again'}[mode] + ': ' + op_call_text(
+            op, build_args(op, arr, D.shape, spec['backend']),
+            call_spelling(spec, op, arr))
     return {'fixture': spec['fixture'], 'family': spec['family'], 'band': spec['band'], 'meta_overrides': spec['over'],
             'ns': int(D.shape[0]), 'nc': int(D.shape[1]), 'backend': spec['backend'], 'chunk': spec['chunk'], 'sort': spec['sort'],
             'data': D.tolist() if D.size <= 4000 else None, 'data_seed': spec['data_seed'], 'op': op, 'mode': mode,
-            'array_lists': arr, 'call_sequence': calls or 'open spikeglx.Reader(file, sort=sort)' + (
+            'array_lists': arr, 'ctor': spec.get('ctor', 'path-kw'),
+            'call_sequence': 'sr = ' + CTOR_TEXT[spec.get('ctor', 'path-kw')] + '; ' + (calls or '') + (
                 '; call spikeglx.geometry_from_meta(sr.meta, sort=sort) twice; open a second Reader on the same files' if op[0] == 'reopen' else '')}
 
 
@@ -1047,7 +1178,8 @@ def _spec_from_input(i):
     return {'k': -1, 'fixture': i['fixture'], 'family': i['family'], 'band': i['band'], 'over': i['meta_overrides'], 'ns': i['ns'],
             'nc': i['nc'], 'backend': i['backend'], 'chunk': i['chunk'], 'sort': i['sort'], 'data_seed': i['data_seed'],
             'ops': [] if reopen or i['op'][0] in ('geometry', 'sync', 'open', 'oracle') else [i['op']],
-            'modes': [] if reopen or i['op'][0] in ('geometry', 'sync', 'open', 'oracle') else [[i.get('mode', 'plain'), bool(i.get('array_lists', False))]],
+            'modes': [] if reopen or i['op'][0] in ('geometry', 'sync', 'open', 'oracle') else [[i.get('mode', 'plain'), i.get('array_lists', False)]],
+            'ctor': i.get('ctor', 'path-kw'),
             'reopen': reopen, 'mutated': True, 'table_style': '?'}
 
 
@@ -1155,7 +1287,21 @@ def _differs(sel_n, what):
 
 
 def known_findings(ctx):
+    def tuple_csel():
+        R = _demo_rec('bin')
+        try:
+            sr = R.sr
+            a, b = sr[0:4, (3,)], sr[0:4, ()]
+            try:
+                sr[0:4, (3, 1)]
+                c = False
+            except IndexError:
+                c = True
+            return a.shape == (4,) and b.shape == (4, 385) and c and sr[0:4, [3]].shape == (4, 1)
+        finally:
+            R.close()
     return {
+        'tuple_channel_selector': tuple_csel,
         'cbin_negative_step_sample_slice':
             lambda: _differs(slice(None, None, -1), lambda b, c: getattr(b, 'shape', None) == (7, 3) and getattr(c, 'shape', None) == (0, 3)),
         'cbin_int_sample_index_below_minus_ns_wraps':
